@@ -938,6 +938,12 @@ def extras_part(ctx, st):
                              {"all": [], "completionReason": "ALL_COMPLETED"}, [[], [[]], [[[None]]]], ((), [()], {"": {}}),
                              [True, 1, 1.0, "1"], (True, 1, 1.0, "1"), {"a": [True, 1, 1.0]}, [date(2024, 1, 1), datetime(2024, 1, 1)]]):
         run_case(ctx, st, val, f"lookalike#{i}")
+    # batch results whose items are not listed in index order (user-built: failed first, a filtered subset newest-first, duplicates of
+    # an index, gaps): the order of `all` is part of the value
+    mk = lambda idxs: BatchResult([BatchItem(i, BatchItemStatus.SUCCEEDED, result={"i": i, "p": (i, str(i))}) for i in idxs],   # noqa: E731
+                                  CompletionReason.ALL_COMPLETED)
+    for i, val in enumerate([mk([2, 0, 1]), mk([7, 3]), [mk([1, 0])], {"k": (mk([5, 4, 9]), 1)}, mk([0, 0, 1]), mk([3, 1, 2, 0])]):
+        run_case(ctx, st, val, f"batch-order#{i}")
     # out of the property's grammar (recorded, not judged): bytes-like values come back as bytes
     obs = {}
     for nm, val in (("bytearray", bytearray(b"x")), ("memoryview", memoryview(b"x"))):
